@@ -54,6 +54,19 @@ Theorem C06_sequences_over_a_condensation_antichain_are_incompatible :
 Proof. exact sequences_over_a_condensation_antichain_are_incompatible_checked. Qed.
 Print Assumptions C06_sequences_over_a_condensation_antichain_are_incompatible.
 
+(* why at most one selected sequence passes a given arc when the multiplicity of its condensation arc lets several through: an arc that has a
+   parallel arc between the same two components lies on EVERY walk of no pair (v, t) with a walk at all -- it dominates nothing -- so it
+   occurs in no dominator chain but its own (C06_dominator_sequence_is_the_dominator_chain); with multiplicity 1 the code keeps one sequence *)
+From FP Require DomSpec.
+Theorem C06_an_arc_with_a_parallel_arc_dominates_nothing :
+  forall (E : list PathEnc.edge) (cm : node -> N),
+  (forall u v, In u (nodes_of E) -> In v (nodes_of E) -> (cm u = cm v <-> conn E u v /\ conn E v u)) ->
+  forall (e e' : edge) (v t : node),
+  In e E -> In e' E -> e <> e' -> cm (fst e) = cm (fst e') -> cm (snd e) = cm (snd e') -> cm (fst e) <> cm (snd e) ->
+  (exists w, Safety.st_walk E v t w) -> ~ DomSpec.dominates_to E v t e.
+Proof. exact parallel_arc_dominates_nothing. Qed.
+Print Assumptions C06_an_arc_with_a_parallel_arc_dominates_nothing.
+
 (* C (zero fixing).  The rule of _apply_safety_optimizations_fix_zero_edges as the code states it (WalkEncRows.zero_edges: an arc (u,v)
    is forbidden for the slot of the sequence W unless it is in W, or u is reachable from the last node of W, or v reaches the first
    node of W, or for two consecutive arcs of W u is reachable from the head of the first and v reaches the tail of the second):
